@@ -486,6 +486,7 @@ def _getdistances(rep):
     """the distance tables handed to the callees are those of the periodic search of the structure (contract of get_distances, shared with C10)"""
     from props import C10
     C10._getdistances(rep)
+    C10._wrapper(rep)
 
 def replay_key(ob):
     return "c09"
@@ -569,6 +570,8 @@ def replay(ob):
     fam.append(("C chain in a tight cell, pbc TFF", cc, 1, 0.3))
     n2 = Atoms("N2", positions=[[0.6, 0.6, 12], [0.6, 0.6, 13.1]], cell=[1.2, 1.2, 25], pbc=[False, False, True])
     fam.append(("N2 in a narrow cell, pbc FFT", n2, 0, 0.3))
+    thin = Atoms("C2", positions=[[0.3, 1.0, 2.0], [0.3, 4.3, 2.0]], cell=[1.4, 12, 12], pbc=True)
+    fam.append(("two C atoms 3.3 A apart in a cell 1.4 A thin (3.3 - 1.52 = 1.78 <= 3.5: one component, periodic along the thin direction only)", thin, 1, 3.5))
     kh = Atoms("KH", positions=[[0, 5, 5], [0, 6.5, 5]], cell=[4.2, 12, 12], pbc=[True, False, False])
     fam.append(("K-H units 4.2 A apart along a (K bonded to its own image: 4.2 - 2*2.03 = 0.14 <= 0.5), pbc TFF", kh, 1, 0.5))
     for ent in fam:
